@@ -56,7 +56,12 @@ def end_tag_slice_form(F, B, exs, payload, t2):
         """'typ=' / 'typ!=' / 'size=' / 'size!=' / 'short' / None for a normalised fact"""
         if f[0] != "cmp":
             return None
-        a, b_, op = f[2], f[3], f[1]
+        def unwrap(t):
+            # `TagTypeId::from(w).0` - the transparent newtype built by a transmute of the word, read back - is the word
+            if t[0] == "fld" and t[2] == 0 and t[1][0] == "cast" and t[1][1] == "Transmute" and str(t[1][3] if len(t[1]) > 3 else "").endswith("::TagTypeId"):
+                return t[1][2]
+            return t
+        a, b_, op = unwrap(f[2]), unwrap(f[3]), f[1]
         for (x, y) in ((a, b_), (b_, a)):
             if is_end(y) and op in ("Eq", "Ne"):
                 return ("typ" + ("=" if op == "Eq" else "!="), x)
@@ -69,6 +74,8 @@ def end_tag_slice_form(F, B, exs, payload, t2):
     have_value = False
     for e in exs:
         pc = SL.norm_facts([N(f) for f in e.facts], B)
+        if ("const", False) in pc:
+            continue        # an exit no input takes (the `_` arm of a slice pattern over a slice of known length)
         nm = SL.Norm([f for f in pc if f[0] == "cmp"], B)
         v = nm.norm(N(e.val))
         ks = [kind(f) for f in pc]
